@@ -48,6 +48,7 @@ int main(int argc, char** argv) {
   else if (!strcmp(profile, "c10")) { w_heap = 20; w_query = 15; w_alloc = 35; w_free = 15; w_realloc = 8; }
   else if (!strcmp(profile, "c06")) { w_bad = 40; w_alloc = 30; w_free = 20; w_realloc = 8; w_visit = 4; }
   else if (!strcmp(profile, "c15")) { w_alloc = 55; w_free = 25; w_realloc = 8; w_heap = 3; w_query = 3; w_visit = 2; max_size = 6u << 20; }
+  else if (!strcmp(profile, "bulk")) { w_bulk = 14; w_alloc = 35; w_free = 30; w_realloc = 6; w_visit = 3; w_collect = 4; w_heap = 0; max_size = 200000; }
   else if (!strcmp(profile, "c12")) { w_visit = 12; w_heap = 8; w_collect = 2; w_alloc = 40; w_free = 30; }
   else { fprintf(stderr, "unknown profile %s\n", profile); return 2; }
 
@@ -76,7 +77,7 @@ int main(int argc, char** argv) {
   if (progpath) { run_program(progpath); ops = 0; }
   if (workload) { run_rounds(workload, rounds, recover_after); ops = 0; }
   if (c18pat) { run_c18(c18pat, c18step); ops = 0; }
-  int total = w_alloc + w_free + w_realloc + w_write + w_query + w_heap + w_visit + w_collect + w_expand + w_chain + w_bad;
+  int total = w_alloc + w_free + w_realloc + w_write + w_query + w_heap + w_visit + w_collect + w_expand + w_chain + w_bad + w_bulk;
   for (nops = 0; nops < ops; nops++) {
     int r = (int)vf_randn((uint64_t)total);
     if (nops % 500 == 499) op_checkall();
@@ -97,9 +98,11 @@ int main(int argc, char** argv) {
     if (r < w_collect) { op_collect(); continue; } r -= w_collect;
     if (r < w_expand) { op_expand(); continue; } r -= w_expand;
     if (r < w_bad) { op_bad(); continue; } r -= w_bad;
+    if (r < w_bulk) { op_bulk(); continue; } r -= w_bulk;
     op_zero_chain();
   }
   op_checkall();
+  for (int i = 0; i < MAXGROUPS; i++) if (grps[i].n > 0) op_free_pattern(i, 0);
   /* wind down: free everything, final visits */
   for (int s = 0; s < MAXSLOTS; s++) if (slots[s].p) op_free_slot(s, FR_free);
   for (int i = 0; i < MAXHEAPS; i++) if (hps[i].alive) op_visit(i, 0);
